@@ -302,3 +302,14 @@ example :
     (readBytesAt c s2 18 2).2 = .ok [19, 20] ∧ (readBytesAt c s2 18 3).2 = .err .oob ∧
     (readBytesAtUntil c s2 ⟨4, 20⟩ 0).2 = .ok [5, 6, 7, 8, 9, 10, 11, 12] := by
   decide
+
+/-- Why `C13_history_independent` needs `SourceOk`: with a deterministic source that fails on every request
+touching byte 17, `until 10..20` fails on a fresh cache (it has to read the buffer `[8, 20)`), but succeeds
+from the string cache after `until 10..14` (which only needed `[8, 16)`). Both answers are allowed by
+`C13_step`; the cached one is simply more successful. Range reads do not show this. -/
+example :
+    let c : Cfg := ⟨8, fun o n => if o ≤ 17 ∧ 17 < o + n then none else srcOf C13_legacyFile o n⟩
+    (readBytesAtUntil c (St.init 20) ⟨10, 20⟩ 0).2 = .err .source ∧
+    (readBytesAtUntil c (St.init 20) ⟨10, 14⟩ 0).2 = .ok [11, 12] ∧
+    (readBytesAtUntil c (readBytesAtUntil c (St.init 20) ⟨10, 14⟩ 0).1 ⟨10, 20⟩ 0).2 = .ok [11, 12] := by
+  decide
